@@ -37,6 +37,11 @@ pub struct Case {
     pub index_mode: u8,
     /// subsets of descriptors to fetch, as bit masks over the dictionary order (bit i = descriptor i)
     pub masks: Vec<Vec<bool>>,
+    /// per subset: 0 = the fetch is drained; a > 0 = the caller drops the stream after some of its items (1..n-1, monotone
+    /// in a). All fetches of a case go through ONE Archive / HttpReader, so what an abandoned fetch leaves behind in the
+    /// reader meets the next fetch, whose requests must again be exactly its own runs.
+    #[serde(default)]
+    pub abandon: Vec<u16>,
 }
 
 /// maximal runs of adjacent ranges, in order: (first byte, last byte) inclusive
@@ -82,7 +87,7 @@ pub fn build(a: &ArchCase) -> Result<Option<Built>, String> {
 }
 
 /// Fetch each subset through Archive::chunk_stream over HttpReader and compare the server's Range log.
-pub fn run_masks(b: &Built, hash_len: usize, pieces: u16, index_mode: u8, masks: &mut dyn Iterator<Item = Vec<bool>>, mut per_mask: impl FnMut(&[bool], usize, usize)) -> Result<(), String> {
+pub fn run_masks(b: &Built, hash_len: usize, pieces: u16, index_mode: u8, abandon: &[u16], masks: &mut dyn Iterator<Item = Vec<bool>>, mut per_mask: impl FnMut(&[bool], usize, usize)) -> Result<(), String> {
     let script = match pieces {
         0 => http::Script { max_requests: 1 << 30, ..Default::default() },
         1 => {
@@ -102,7 +107,7 @@ pub fn run_masks(b: &Built, hash_len: usize, pieces: u16, index_mode: u8, masks:
         let hdr_reqs = srv.requests();
         // (how the header is fetched is not C07's business: only the chunk-data requests that follow are judged)
         let _ = &hdr_reqs;
-        for mask in masks {
+        for (mi, mask) in masks.enumerate() {
           let mut attempt = 0;
           loop {
             attempt += 1;
@@ -121,6 +126,10 @@ pub fn run_masks(b: &Built, hash_len: usize, pieces: u16, index_mode: u8, masks:
                     sel.push((d.0, d.1));
                 }
             }
+            let stop_after: Option<usize> = match abandon.get(mi).copied().unwrap_or(0) {
+                a if a > 0 && sel.len() >= 2 => Some(1 + crate::gen::idx(a, sel.len() - 1)),
+                _ => None,
+            };
             let mut got_items = 0usize;
             {
                 let mut stream = archive.chunk_stream(&idx);
@@ -138,6 +147,9 @@ pub fn run_masks(b: &Built, hash_len: usize, pieces: u16, index_mode: u8, masks:
                         return Err(format!("item {} has {} bytes, descriptor stores {}", got_items, c.len(), want.1));
                     }
                     got_items += 1;
+                    if Some(got_items) == stop_after {
+                        break;
+                    }
                 }
                 drop(stream);
                 if let Some(te) = transport_err {
@@ -149,12 +161,19 @@ pub fn run_masks(b: &Built, hash_len: usize, pieces: u16, index_mode: u8, masks:
                     return Err(te);
                 }
             }
-            if got_items != sel.len() {
+            if got_items != sel.len() && stop_after.is_none() {
                 return Err(format!("stream yielded {} items for {} selected descriptors", got_items, sel.len()));
             }
             let log = srv.requests();
             let got: Vec<(u64, u64)> = log[before..].iter().map(|r| r.range.unwrap_or((u64::MAX, 0))).collect();
             let want = expected_runs(&sel);
+            if stop_after.is_some() {
+                // an abandoned fetch: what it did request must be the leading runs (the statement is about complete fetches)
+                if got.len() > want.len() || got[..] != want[..got.len()] {
+                    return Err(format!("requests: abandoned fetch of subset {:?}: requests {:?} are not the leading runs of {:?}", mask.iter().map(|b| if *b { '1' } else { '0' }).collect::<String>(), got, want));
+                }
+                break;
+            }
             if got != want {
                 let i = got.iter().zip(want.iter()).position(|(a, b)| a != b).unwrap_or(got.len().min(want.len()));
                 return Err(format!(
@@ -186,7 +205,7 @@ fn run_case(c: &Case, rec: &mut CaseRec) -> Result<(), String> {
     };
     let mut nontrivial = false;
     let mut it = c.masks.iter().cloned();
-    run_masks(&b, c.arch.cfg.hash_len, c.pieces, c.index_mode, &mut it, |_m, runs, sel| {
+    run_masks(&b, c.arch.cfg.hash_len, c.pieces, c.index_mode, &c.abandon, &mut it, |_m, runs, sel| {
         if runs >= 2 && sel > runs {
             nontrivial = true;
         }
@@ -196,6 +215,7 @@ fn run_case(c: &Case, rec: &mut CaseRec) -> Result<(), String> {
     rec.class_if(c.arch.enc.is_some(), "independent_encoder_layout");
     rec.class_if(c.pieces == 1, "body_pieces_end_on_chunk_boundaries");
     rec.class_if(c.pieces >= 2, "body_in_small_pieces");
+    rec.class_if(c.abandon.iter().take(c.masks.len().saturating_sub(1)).any(|a| *a > 0), "fetch_after_an_abandoned_fetch_on_the_same_reader");
     rec.class_if(c.index_mode % 4 >= 2, "index_places_chunks_in_another_order");
     rec.class_if(c.arch.enc.as_ref().map(|e| !e.desc_keys.is_empty()).unwrap_or(false), "descriptor_table_not_in_first_occurrence_order");
     rec.class_if(c.arch.enc.as_ref().map(|e| !e.order_keys.is_empty()).unwrap_or(false), "dictionary_order_not_file_order");
@@ -225,7 +245,14 @@ fn small_archive_strategy(max_chunks: usize) -> impl Strategy<Value = ArchCase> 
 }
 
 fn random_mask_case_strategy() -> impl Strategy<Value = Case> {
-    (small_archive_strategy(60), prop::collection::vec(prop::collection::vec(prop::bool::weighted(0.6), 60), 1..6), prop_oneof![2 => Just(0u16), 2 => Just(1u16), 1 => 2u16..40], 0u8..4).prop_map(|(arch, masks, pieces, index_mode)| Case { arch, masks, pieces, index_mode })
+    (
+        small_archive_strategy(60),
+        prop::collection::vec(prop::collection::vec(prop::bool::weighted(0.6), 60), 1..6),
+        prop_oneof![2 => Just(0u16), 2 => Just(1u16), 1 => 2u16..40],
+        0u8..4,
+        prop_oneof![1 => Just(vec![]), 1 => prop::collection::vec(prop_oneof![1 => Just(0u16), 1 => any::<u16>()], 5)],
+    )
+        .prop_map(|(arch, masks, pieces, index_mode, abandon)| Case { arch, masks, pieces, index_mode, abandon })
 }
 
 fn l2_case(c: &l2scen::L2Scen, rec: &mut CaseRec) -> Result<(), String> {
@@ -276,7 +303,7 @@ impl Prop for C07 {
     }
     fn meta(&self, _tier: Tier) -> Meta {
         Meta {
-            rule: "variant 'subsets': archives with <= 10 descriptors (bitar's writer, or the independent encoder with permuted / padded stored chunks so that dictionary order != file order) x EVERY subset of descriptors, fetched through Archive::chunk_stream(&ChunkIndex) over HttpReader from the scripted server; 'masks': archives with up to 60 descriptors x random subsets; 'l2': `bita clone URL` with seeds / prior output (subset induced by R3). No transfer faults. Oracle: filter descriptors (dictionary order) by the subset, split where end_i != offset_{i+1}; the server's chunk-data Range log must equal, in order, bytes=first.offset-(last.end-1) of each run. Non-trivial = >= 2 runs and at least one run of >= 2 chunks; distinct by Blake2 of (archive case, subset).".into(),
+            rule: "variant 'subsets': archives with <= 10 descriptors (bitar's writer, or the independent encoder with permuted / padded stored chunks so that dictionary order != file order) x EVERY subset of descriptors, fetched through Archive::chunk_stream(&ChunkIndex) over HttpReader from the scripted server; 'masks': archives with up to 60 descriptors x 1-5 random subsets fetched one after the other through ONE Archive / HttpReader, half of the cases dropping some of the streams after a few items (what an abandoned fetch leaves in the reader must not change the next fetch's requests); 'l2': `bita clone URL` with seeds / prior output (subset induced by R3). No transfer faults. Oracle: filter descriptors (dictionary order) by the subset, split where end_i != offset_{i+1}; the server's chunk-data Range log must equal, in order, bytes=first.offset-(last.end-1) of each run. Non-trivial = >= 2 runs and at least one run of >= 2 chunks; distinct by Blake2 of (archive case, subset).".into(),
             assumptions: vec!["plain HTTP/1.1 on loopback, one connection per request (Connection: close)".into()],
             ..Meta::default()
         }
@@ -301,7 +328,7 @@ impl Prop for C07 {
                 let mut it = (0..total).map(|m| (0..n).map(|k| (m >> k) & 1 == 1).collect::<Vec<bool>>());
                 let pieces: u16 = match i % 3 { 0 => 0, 1 => 1, _ => 7 };
                 let index_mode: u8 = ((i / 3) % 4) as u8;
-                let r = guarded(|| run_masks(&b, arch.cfg.hash_len, pieces, index_mode, &mut it, |m, runs, sel| stats.push((m.to_vec(), runs, sel))));
+                let r = guarded(|| run_masks(&b, arch.cfg.hash_len, pieces, index_mode, &[], &mut it, |m, runs, sel| stats.push((m.to_vec(), runs, sel))));
                 count += stats.len() as u64;
                 for (m, runs, sel) in &stats {
                     let mut rec = CaseRec::default();
@@ -313,7 +340,7 @@ impl Prop for C07 {
                     let key = blake2_64(&[b"subsets", &(i as u64).to_le_bytes(), format!("{:?}", m).as_bytes(), &cx.seed.to_le_bytes()]);
                     let arch2 = arch.clone();
                     let m2 = m.clone();
-                    cx.account(rec, key, move || serde_json::to_value(&Case { arch: arch2, masks: vec![m2], pieces, index_mode }).unwrap());
+                    cx.account(rec, key, move || serde_json::to_value(&Case { arch: arch2, masks: vec![m2], pieces, index_mode, abandon: vec![] }).unwrap());
                 }
                 if let Err(f) = r {
                     // the failing mask is the one after the last accounted one; shrink by replaying single masks
@@ -321,9 +348,9 @@ impl Prop for C07 {
                         .map(|m| (0..n).map(|k| (m >> k) & 1 == 1).collect::<Vec<bool>>())
                         .find(|m| {
                             let mut one = std::iter::once(m.clone());
-                            run_masks(&b, arch.cfg.hash_len, pieces, index_mode, &mut one, |_, _, _| {}).is_err()
+                            run_masks(&b, arch.cfg.hash_len, pieces, index_mode, &[], &mut one, |_, _, _| {}).is_err()
                         });
-                    let case = Case { arch: arch.clone(), masks: vec![failing.unwrap_or_default()], pieces, index_mode };
+                    let case = Case { arch: arch.clone(), masks: vec![failing.unwrap_or_default()], pieces, index_mode, abandon: vec![] };
                     cx.fail("subsets", serde_json::to_value(&case).unwrap(), &f);
                     break;
                 }
